@@ -21,6 +21,7 @@ import lscr_common as L
 PROP = "C11"
 LEAN_MODULES = ["DrxProps.C11"]
 FAMILIES = ["lscr"]
+MODEL_REPRODUCES_KNOWN_FINDINGS = True      # the model is of the code that exists: see core.main, stage K
 RULE = ("constants: all strings of length <=3 (quick) / <=4 (thorough) over a 13-byte special alphabet, random strings <=40 bytes, all 256 "
         "one-byte and all 65536 two-byte inline integers, boundary and random 32-bit pool integers, 80-bit floats over sign/exponent/"
         "mantissa classes; each is pushed through the real escape_string / parse_lrcr_crb / ConstantValue.generate_lingo / generate_js "
